@@ -59,6 +59,8 @@ def run(chk, ctx):
     chk.describe("C15.OBS", "observers do not modify the schedule")
     repo = ctx.repo
     all_fns = list(repo.all_functions())
+    global REPO_FNS
+    REPO_FNS = all_fns
     for rel, q, f in all_fns:
         chk.files.add(rel)
     # ---------------- module-level mutable state and closure cells
@@ -265,19 +267,19 @@ def run(chk, ctx):
     rel, base = repo.find_class("CheckpointSchedule")
     sub = repo.method(rel, "CheckpointSchedule", "__init_subclass__")
     chk.functions.add(f"{rel[:-3]}.CheckpointSchedule.__init_subclass__")
-    wr = [n for n in ast.walk(sub) if isinstance(n, ast.FunctionDef) and n.name == "_iterator"]
+    fw = find_cache_wrapper(repo)
     cons = f"{rel[:-3]}.CheckpointSchedule.__init_subclass__#generator-cache"
-    if len(wr) != 1:
+    if fw is None:
         chk.decide("C15.GEN", cons, None, "generator-caching wrapper not found", rel=rel, node=sub)
     else:
-        w = wr[0]
+        w = fw[2]
         first = w.args.args[0].arg if w.args.args else "self"
         stores = [n for n in ast.walk(w) if isinstance(n, ast.Attribute) and isinstance(n.ctx, ast.Store)]
         on_self = [n for n in stores if isinstance(n.value, ast.Name) and n.value.id == first]
         other = [n for n in stores if n not in on_self]
         cells = [n for n in ast.walk(w) if isinstance(n, ast.Nonlocal)] + \
             [n for n in ast.walk(w) if isinstance(n, ast.Subscript) and isinstance(n.ctx, ast.Store)]
-        gen_calls = [n for n in ast.walk(w) if isinstance(n, ast.Call) and getattr(n.func, "id", None) == "cls_iter"]
+        gen_calls = [n for n in ast.walk(w) if isinstance(n, ast.Call) and getattr(n.func, "id", None) == fw[3]]
         ok = len(on_self) >= 1 and not other and not cells and len(gen_calls) == 1 and \
             [ast.unparse(a) for a in gen_calls[0].args] == [first]
         chk.decide("C15.GEN", cons, True if ok else (False if (other or cells) else None),
@@ -300,9 +302,14 @@ def run(chk, ctx):
                             "observer mutates an attribute" if muts else "observer is read-only"), rel=r2, node=f, nontrivial=False)
 
 
+REPO_FNS = []
+
+
 def key_rule(chk, rel, q, store, fn, name, level):
     """store: Subscript store D[key] = value inside fn; the key must mention every parameter fn reads"""
     params = [a.arg for a in fn.args.args + fn.args.kwonlyargs]
+    star = [a.arg for a in (fn.args.vararg, fn.args.kwarg) if a is not None]
+    params += star
     key_names = {n.id for n in ast.walk(store.slice) if isinstance(n, ast.Name)}
     read = set()
     for n in ast.walk(fn):
@@ -310,10 +317,25 @@ def key_rule(chk, rel, q, store, fn, name, level):
             read.add(n.id)
     missing = sorted(read - key_names)
     cons = f"{rel[:-3].replace('/', '.')}.{q}#cache-{name}"
-    chk.decide("C15.KEY", cons, True if not missing else False,
+    verdict = True if not missing else False
+    extra_why = ""
+    if missing and set(missing) <= set(star) and fn.args.kwarg is not None and fn.args.kwarg.arg in missing:
+        # a generic wrapper(*args, **kwargs) keyed by the positional arguments only: definite when a function it wraps
+        # takes keyword arguments at all
+        outer = q.split(".")[0]
+        wrapped = [(r2, q2, f2) for r2, q2, f2 in REPO_FNS if any(
+            (isinstance(d, ast.Name) and d.id == outer) or (isinstance(d, ast.Call) and getattr(d.func, "id", None) == outer)
+            for d in f2.decorator_list)]
+        kw_takers = [q2 for r2, q2, f2 in wrapped if f2.args.kwonlyargs or f2.args.kwarg or f2.args.defaults]
+        if kw_takers:
+            extra_why = f" (it wraps {kw_takers}, which take keyword arguments)"
+        else:
+            verdict = None
+            extra_why = " (no wrapped function with keyword arguments was found)"
+    chk.decide("C15.KEY", cons, verdict,
                f"{level} mapping {name} is written under key `{ast.unparse(store.slice)}`; parameters read by {q}: {sorted(read)}"
                + ("" if not missing else f"; {missing} influence the stored value but are not part of the key: "
-                  "a later schedule with other values receives the cached result"), rel=rel, node=store)
+                  "a later schedule with other values receives the cached result" + extra_why), rel=rel, node=store)
     # lookups use the same key expression
     lookups = [n for n in ast.walk(fn) if isinstance(n, ast.Subscript) and isinstance(n.ctx, ast.Load)
                and isinstance(n.value, ast.Name) and n.value.id == name]
